@@ -177,6 +177,82 @@ def precedence_rule(rep, fq):
                  % (rel(f.loc), " ".join(seq), " ".join(PASSES)))
 
 
+def narrowing_rule(rep, funcs):
+    """(e) every conversion of a floating value to an integer type is dominated by a two-sided range test of a
+    variable it derives from (an out-of-range conversion is undefined: 'x**3e9' would silently get another exponent)."""
+    INT_MAX = 2 ** 31
+    for f in funcs:
+        casts = [s for s, n in f.stmts.items() if n.get("cast") == "FloatingToIntegral"]
+        if not casts:
+            continue
+        # variables the operand derives from: itself, plus sources through modf(v, &ip) / floor / trunc / round
+        derives = {}
+        for s, n in f.stmts.items():
+            if n["k"] == "CallExpr" and (n.get("callee") or "").split("::")[-1] in ("modf",) and len(n.get("args", [])) == 2:
+                src = f.stmts[f.strip(n["args"][0])]
+                dst = [f.stmts[x] for x in f.walk(n["args"][1]) if f.stmts[x]["k"] == "DeclRefExpr"]
+                if src["k"] == "DeclRefExpr" and dst:
+                    derives.setdefault(dst[0]["declId"], set()).add(src["declId"])
+            if n["k"] == "DeclStmt":
+                for d in n["decls"]:
+                    if "init" in d:
+                        i = f.stmts[f.strip(d["init"])]
+                        if i["k"] == "CallExpr" and (i.get("callee") or "").split("::")[-1] in ("floor", "trunc", "round", "ceil", "nearbyint"):
+                            a = f.stmts[f.strip(i["args"][0])]
+                            if a["k"] == "DeclRefExpr":
+                                derives.setdefault(d["declId"], set()).add(a["declId"])
+
+        def atom(f_, s):
+            bo = f_.binop(s)
+            if not bo or bo[0] not in ("<", ">", "<=", ">="):
+                return None
+            l, r = f_.stmts[f_.strip(bo[1])], f_.stmts[f_.strip(bo[2])]
+
+            def const(sid):
+                t = f_.text(sid).replace(" ", "")
+                try:
+                    return float(t)
+                except ValueError:
+                    return None
+            op = bo[0]
+            if l["k"] == "DeclRefExpr" and const(bo[2]) is not None and abs(const(bo[2])) < INT_MAX:
+                return ("%d%s" % (l["declId"], ">" if op in (">", ">=") else "<"), False)
+            if r["k"] == "DeclRefExpr" and const(bo[1]) is not None and abs(const(bo[1])) < INT_MAX:
+                return ("%d%s" % (r["declId"], "<" if op in (">", ">=") else ">"), False)
+            return None
+        bad = []
+
+        def el(st, b, i, e):
+            if e.get("s") in casts:
+                s = e["s"]
+                o = f.stmts[f.strip(f.kids(s)[0])]
+                fx = dict(st)
+                vars_ = set()
+                if o["k"] == "DeclRefExpr":
+                    vars_ = {o["declId"]} | derives.get(o["declId"], set())
+                okk = any(fx.get("%d>" % v) is True and fx.get("%d<" % v) is True for v in vars_)
+                if not okk:
+                    bad.append(s)
+            return (st,)
+
+        def ed(st, b, succ, pol):
+            fx = branch(f, b, pol, dict(st), atom)
+            if fx is None:
+                return ()
+            return (tuple(sorted(fx.items())),)
+        forward(f, [()], el, ed)
+        for s in casts:
+            rep.count("floating-to-integer conversions")
+        if bad:
+            s = bad[0]
+            rep.fail("NARROWING@%s#%s" % (f.qname, f.text(f.kids(s)[0])),
+                     "%s: %s converts the floating value %s to %s on a path where no two-sided range test (|bound| < 2^31) of it (or of "
+                     "the value it was extracted from) has been made: an out-of-range constant is converted to an arbitrary integer"
+                     % (rel(f.short_loc(s)), f.qname, f.text(f.kids(s)[0]), f.stmts[s].get("t")))
+        else:
+            rep.ok("%s: every floating-to-integer conversion is dominated by a two-sided range test" % f.qname)
+
+
 def run(tier):
     rep = Report("C13", tier, "other", RULE)
     units = units_under("src/Math")
@@ -195,6 +271,8 @@ def run(tier):
     rep.floor("registered functions", 30)
     rep.floor("registered constants", 20)
     precedence_rule(rep, fq)
+    narrowing_rule(rep, [f for f in funcs if f.qname.startswith("tfel::math::Evaluator::")])
+    rep.floor("floating-to-integer conversions", 1)
     # positive control for OWNERSHIP
     ctl = os.path.join(VERIF, "controls", "C13_control.cxx")
     dc = cfgdump([ctl], os.path.join(OUT, "C13", "ctl"), funcs=r"^verif_ctl::", flags_for=lambda u: (header_flags(), VERIF))
